@@ -15,7 +15,7 @@ META = {
         "The request ids themselves flow through the real BER encoder (client), the independent decoder "
         "(agent), the independent encoder and the real decoder."),
     "bounds": ["clock: base instant 1700000000, each of the first 6 reads advances by 0 or 1 s (all 64 schedules), one job with a 2^31 wrap-around base",
-               "response id offset d in {0, +1, -1, +1000, -2^31}", "reply community in {same, prefix, other, empty}; reply version in {same, other}",
+               "response id offset d in {0, +1, -1, +1000, -2^31, +2^32, -2^32, 3*2^32, 2^40} (any integer can be sent)", "reply community in {same, prefix, other, empty}; reply version in {same, other}",
                "discovery reply message-id offset in {0, 1}", "operations get, multiget, getnext, multigetnext, set, multiset, bulkget, 1st and 2nd request of walk and bulkwalk",
                "v1, v2c, v3 noAuthNoPriv / authNoPriv / authPriv"],
     "outside": ["clocks that jump by more than one second between two reads (the code only compares ids for equality)",
@@ -27,7 +27,7 @@ META = {
 UNIVERSE = [(o, C.value_for(i)) for i, o in enumerate(C.U14)]
 OIDS = [C.U14[2], C.U14[3]]
 OPS = ["get", "multiget", "getnext", "multigetnext", "set", "multiset", "bulkget", "walk1", "walk2", "bulkwalk1", "bulkwalk2"]
-OFFSETS = [0, 1, -1, 1000, -2 ** 31]
+OFFSETS = [0, 1, -1, 1000, -2 ** 31, 2 ** 32, -2 ** 32, 3 * 2 ** 32, 2 ** 40]
 COMMUNITIES = [None, b"publi", b"private", b""]
 
 
@@ -104,12 +104,8 @@ def make_harness(kind, op, base=1700000000, traced=False):
                     counter[0] += 1
                     if counter[0] == which and d != 0:
                         # the id in the datagram (read by the independent decoder) + d
-                        rid = req.request_id + d
-                        if rid > 2 ** 31 - 1:
-                            rid -= 2 ** 32
-                        if rid < -2 ** 31:
-                            rid += 2 ** 32
-                        return resp._replace(request_id=rid)
+                        # (any integer can be put on the wire; no wrapping)
+                        return resp._replace(request_id=req.request_id + d)
                     return resp
 
                 agent.tamper = tamper
